@@ -1400,6 +1400,84 @@ theorem poll_frame (s : Station) (apps : Apps) (now : Int) (phy : Bool) (rx : By
     · rw [hw] at hd
       exact quiet (by simp) rfl (hd.listen none 0 (by simp)).1
 
+/-- The slot time has expired at this poll: evaluated, as `do_check_token_pass` does, after
+`check_for_bus_activity` has registered newly pending bytes. -/
+def SlotExpired (s : Station) (now : Int) (rx : Bytes) : Prop :=
+  (checkSlotExpired (checkBusActivity s now rx.length) now).2 = true
+
+/-- An expired slot means silence: no new byte has become pending since the last poll, and the last
+registered bus activity lies more than a slot time back. -/
+theorem slotExpired_silent (s : Station) (now : Int) (rx : Bytes) (h : SlotExpired s now rx) :
+    rx.length ≤ s.pendingBytes ∧ ∃ l, s.lastBusActivity = some l ∧ l + (s.p.slotTime : Nat) < now := by
+  unfold SlotExpired checkSlotExpired at h
+  by_cases hp : rx.length > s.pendingBytes
+  · exfalso
+    simp only [checkBusActivity, hp, if_true, markBusActivity, getOrInsertLast, decide_eq_true_eq] at h
+    have : now ≤ max (s.lastBusActivity.getD now) now := Int.le_max_right _ _
+    omega
+  · refine ⟨by omega, ?_⟩
+    simp only [checkBusActivity, hp, if_false] at h
+    cases hl : s.lastBusActivity with
+    | none => simp only [getOrInsertLast, hl, decide_eq_true_eq] at h; omega
+    | some l =>
+      simp only [getOrInsertLast, hl, decide_eq_true_eq] at h
+      exact ⟨l, rfl, by omega⟩
+
+/-- The ring view across one poll: it evolves without any `remove_station` (witnessed passes, GAP
+successor, claim, reset) — except in a poll that starts in `CheckTokenPass` on the THIRD attempt with
+the slot time expired, where exactly NS is removed (and then the pass to the new NS is witnessed). -/
+theorem poll_ring (s : Station) (apps : Apps) (now : Int) (phy : Bool) (rx : Bytes) (c' : Ctx)
+    (h : s.poll apps now phy rx = .ok c') :
+    RingEvo s.p.address s.ring c'.s.ring ∨
+    (s.online = true ∧ s.st = .checkTokenPass .third ∧ SlotExpired s now rx ∧
+      ∃ r0, s.ring.removeStation s.ring.ns = some r0 ∧
+        (c'.s.ring = r0 ∨ c'.s.ring = r0.witness s.p.address r0.ns)) := by
+  rcases poll_cases s apps now phy rx c' h with ⟨hoff, hst, rfl⟩ | ⟨hon, rfl⟩ | ⟨hon, hd⟩
+  · exact .inl (.refl _)
+  · exact .inl (.of_eq (by simp))
+  · rcases wake_cases s with hw | ⟨hw, -⟩
+    · rw [hw] at hd
+      cases hst : s.st with
+      | offline => exact absurd (by simpa using hst) hd.awake.1
+      | passiveIdle => exact absurd (by simpa using hst) hd.awake.2
+      | listenToken sr coll => exact .inl (by simpa using (hd.listen sr coll (by simpa using hst)).2.1)
+      | activeIdle sr np coll => exact .inl (by simpa using (hd.idle sr np coll (by simpa using hst)).2.2.1)
+      | claimToken step => exact .inl (by simpa using (hd.claim step (by simpa using hst)).2.2.1)
+      | passToken g att => exact .inl (by simpa using (hd.pass g att (by simpa using hst)).ringEvo)
+      | awaitStatus a0 => exact .inl (by simpa using (hd.status a0 (by simpa using hst)).2.2.1)
+      | useToken d fcd =>
+        obtain ⟨new, -, -, hr, -⟩ := hd.use d fcd (by simpa using hst)
+        exact .inl (.of_eq (by simpa using hr))
+      | awaitData a d =>
+        obtain ⟨hr, -⟩ := hd.await a d (by simpa using hst)
+        exact .inl (.of_eq (by simpa using hr))
+      | checkTokenPass att =>
+        obtain ⟨-, -, hcase⟩ := hd.check att (by simpa using hst)
+        rcases hcase with ⟨hex, r0, att', hrs, hpost⟩ | ⟨-, rx', calls, ret, -, hpost⟩
+        · rcases hrs with ⟨-, -, hr0⟩ | ⟨-, -, hr0⟩ | ⟨hatt, -, hr0⟩
+          · left
+            simp only [checkBA_ring, checkBA_p] at hr0 hpost
+            rcases hpost with ⟨-, hr, -⟩ | ⟨hr, -⟩
+            · exact .of_eq (by rw [hr, hr0])
+            · rw [hr, hr0]; exact .witness _ _ (.refl _)
+          · left
+            simp only [checkBA_ring, checkBA_p] at hr0 hpost
+            rcases hpost with ⟨-, hr, -⟩ | ⟨hr, -⟩
+            · exact .of_eq (by rw [hr, hr0])
+            · rw [hr, hr0]; exact .witness _ _ (.refl _)
+          · right
+            simp only [checkBA_ring, checkBA_p] at hr0 hpost
+            refine ⟨hon, by rw [hatt], hex, r0, hr0, ?_⟩
+            rcases hpost with ⟨-, hr, -⟩ | ⟨hr, -⟩
+            · exact .inl hr
+            · exact .inr hr
+        · left
+          rcases hpost with ⟨-, -, hr, -⟩ | ⟨-, hev, -⟩
+          · exact .of_eq (by simpa using hr)
+          · simpa using hev.ringEvo
+    · rw [hw] at hd
+      exact .inl (by simpa using (hd.listen none 0 (by simp)).2.1)
+
 /-! ## Call sequences with their callback log -/
 
 namespace C05
